@@ -228,7 +228,14 @@ func c03tRun(in c03tInput) (msg, key string, infra bool, cases int) {
 				err = conn.Call(ctx, "t.r.Echo", json.RawMessage(doc), &out)
 			} else {
 				var recv func(context.Context, interface{}) (uint64, error)
-				recv, err = conn.Send(ctx, "t.r.Echo", json.RawMessage(doc), 0)
+				// every other Send runs under its own context, cancelled once Send has returned (a per-operation
+				// timeout helper does this); the receive is governed by the context it is given
+				sctx, scancel := ctx, context.CancelFunc(func() {})
+				if i%4 == 3 {
+					sctx, scancel = context.WithCancel(ctx)
+				}
+				recv, err = conn.Send(sctx, "t.r.Echo", json.RawMessage(doc), 0)
+				scancel()
 				if err == nil {
 					_, err = recv(ctx, &out)
 				}
@@ -249,7 +256,9 @@ func c03tRun(in c03tInput) (msg, key string, infra bool, cases int) {
 		}
 	case "more":
 		params, _ := json.Marshal(map[string]interface{}{"seq": in.Seq})
-		recv, err := conn.Send(ctx, "t.r.More", json.RawMessage(params), varlink.More)
+		sctx, scancel := context.WithCancel(ctx)
+		recv, err := conn.Send(sctx, "t.r.More", json.RawMessage(params), varlink.More)
+		scancel() // the Send is over: the replies are received under ctx
 		if err != nil {
 			return fmt.Sprintf("%s: Send(More): %v", in.Transport, err), "symptom=call-failed transport=" + in.Transport, false, 0
 		}
